@@ -289,6 +289,9 @@ class C19(Prop):
 
     def case_to_coq(self, case):
         o = self._obs.get(json.dumps(case, sort_keys=True)) or self.run_impl(case)
+        return lst(self.case_to_coq_rows(o))
+
+    def case_to_coq_rows(self, o):
         rows = []
         for x in o:
             f = x["facts"]
@@ -304,7 +307,7 @@ class C19(Prop):
             else:
                 rows.append("LCmd {| k_lookup := %s; k_noargs_with_arg := %s; k_args_valid := %s |}"
                             % (lk(f["lookup"]), b(f.get("noargs_with_arg", False)), b(f.get("args_valid", False))))
-        return lst(rows)
+        return rows
 
     def obs_to_coq(self, obs):
         return lst([x["diag"] for x in obs])
